@@ -8,8 +8,8 @@ import Avfs.Lemmas.Walk
      virtual current directory `w`: ToBasePath(p) = "/a1/…/an/b1/…/bm" where b1 … bm = the components of Clean(Abs(p))
      (`vcomps w p`), ordinary names (`vcomps_names`); Clean(Abs(p)) = "/b1/…/bm" (`vpath_eq`).
   2. The model of the wrapper's methods (`bp<Call>`): ToBasePath on every path parameter + the guards of the Go source;
-     the virtual current directory `bpCwd` (= Getwd of the base, translated); `bpCwd_prefix_cex`: the corner where it is
-     not absolute (string-prefix test), a breach of the confinement.
+     the virtual current directory `bpCwd` (= Getwd of the base, translated); `bpCwd_abs`: it is an absolute path whatever
+     the base's current directory is (after the repair of Getwd; `bpCwd_prefix_repaired`: the former breach).
   3. The setting `BpOK` and the transfer of paths.
   4. `bp_sim_<call>`: wrapper on `p` = view rooted at the base directory (`subView v c`, Lemmas/SubSim.lean) on
      Clean(Abs(p)): by the `sub_sim` theorems of C11, plus the cases of the root of the virtual namespace that `sub_sim`
@@ -241,13 +241,13 @@ def bpEvalSymlinks (base : Bytes) (s : Store) (v : View) (p : Bytes) : Store × 
 
 /-! ### the virtual current directory -/
 
-/-- the base's current directory is not below the base path (no Chdir through the wrapper yet): "/" -/
-theorem bpCwd_outside (base : Bytes) (v : View) (h : base.isPrefixOf v.cwd = false) : bpCwd base v = [SL] := by
+/-- the base's current directory is not the base path nor below it (no Chdir through the wrapper yet): "/" -/
+theorem bpCwd_outside (base : Bytes) (v : View) (h : inBase base v.cwd = false) : bpCwd base v = [SL] := by
   simp [bpCwd, Wrap.getwd, h, fromBasePath_self]
 
 /-- the base's current directory is the base directory: "/" -/
 theorem bpCwd_base (base : Bytes) (v : View) (h : v.cwd = base) : bpCwd base v = [SL] := by
-  simp [bpCwd, Wrap.getwd, h, fromBasePath_self]
+  simp [bpCwd, Wrap.getwd, h, inBase_self, fromBasePath_self]
 
 /-- the base's current directory is "/a1/…/an/b1/…/bm" (what Chdir through the wrapper leaves): "/b1/…/bm" -/
 theorem bpCwd_below (a b : List Bytes) (ha : a ≠ []) (hb : Names b) (v : View) (h : v.cwd = pathOf (a ++ b)) :
@@ -263,32 +263,78 @@ theorem bpCwd_below (a b : List Bytes) (ha : a ≠ []) (hb : Names b) (v : View)
         exact fun hm => (hb.2 _ hm).1 rfl
       · rw [← clean_eq_spec]; exact clean_joined b hb.1 hb.2
     have h' : v.cwd = pathOf a ++ pathOf b := by rw [h, pathOf_append a b ha hbe]
-    have hpre : (pathOf a).isPrefixOf v.cwd = true := by rw [h']; simp
+    have hpre : inBase (pathOf a) v.cwd = true := by
+      rw [h']; simp [inBase, pathOf]
     simp only [bpCwd, Wrap.getwd, hpre, if_true]
     rw [h', fromBasePath_append _ hc]
     rfl
 
-/-- CORNER (confinement, not only simulation): the test `strings.HasPrefix(dir, vfs.basePath)` of Getwd is a test on
-    STRINGS. With base "/tmp" and the base's current directory "/tmpfoo" (outside the base, never reached by a Chdir
-    through the wrapper, but possible by a Chdir on the base file system itself) the virtual current directory is the
-    RELATIVE path "foo", and the relative path "x" is handed to the base as "/tmpfoo/x": outside the base directory. -/
-theorem bpCwd_prefix_cex :
+/-- a clean absolute path other than "/" does not end with a separator -/
+theorem pathOf_getLast (a : List Bytes) (ha : a ≠ []) (hn : ∀ x ∈ a, x ≠ [] ∧ ∀ y ∈ x, y ≠ SL) :
+    (pathOf a).getLast? ≠ some SL := by
+  obtain ⟨l, x, rfl⟩ : ∃ l x, a = l ++ [x] := ⟨a.dropLast, a.getLast ha, (List.dropLast_concat_getLast ha).symm⟩
+  have hx := hn x (by simp)
+  obtain ⟨y, z, rfl⟩ : ∃ y z, x = y ++ [z] := ⟨x.dropLast, x.getLast hx.1, (List.dropLast_concat_getLast hx.1).symm⟩
+  have hz : z ≠ SL := hx.2 z (by simp)
+  have : ∃ pre, pathOf (l ++ [y ++ [z]]) = pre ++ [z] := by
+    rw [pathOf, joinWith_snoc]
+    by_cases hl : l = []
+    · exact ⟨SL :: y, by simp [hl]⟩
+    · exact ⟨SL :: (joinWith SL l ++ SL :: y), by simp [hl]⟩
+  obtain ⟨pre, hp⟩ := this
+  rw [hp, List.getLast?_append]
+  simp [hz]
+
+/-- AFTER THE REPAIR of Getwd (`inBase`): for a base path that does not end with a separator, the virtual current
+    directory is an absolute path WHATEVER the current directory of the base is -/
+theorem bpCwd_abs_gen (base : Bytes) (hbl : base.getLast? ≠ some SL) (v : View) :
+    isAbs .linux (bpCwd base v) = true := by
+  by_cases h : inBase base v.cwd = true
+  · obtain ⟨rest, hr⟩ : ∃ rest, base ++ rest = v.cwd := List.isPrefixOf_iff_prefix.mp (inBase_prefix h)
+    have h2 := h
+    unfold inBase at h2
+    rw [← hr, List.drop_left] at h2
+    cases rest with
+    | nil => rw [bpCwd_base base v (by simpa using hr.symm)]; rfl
+    | cons c r =>
+      have hc : c = SL := by
+        have hb : (base.getLast? == some SL) = false := by simpa using hbl
+        simpa [hb] using h2
+      subst hc
+      have hrooted : Spec.isRooted (joinWith SL [SL :: r, [SL]]) = true := rfl
+      obtain ⟨body, hbody, _⟩ := cleanAbs_of_rooted _ hrooted
+      have : bpCwd base v = Spec.clean (joinWith SL [SL :: r, [SL]]) := by
+        have hp := inBase_prefix h
+        rw [← hr] at h hp
+        simp only [bpCwd, Wrap.getwd, ← hr, h, if_true, fromBasePath, hp, List.drop_left,
+          Option.getD_some, join_eq_spec]
+        simp [Spec.join]
+      rw [this, hbody]
+      rfl
+  · rw [bpCwd_outside base v (by simpa using h)]; rfl
+
+/-- … in particular for the base path "/a1/…/an", n ≥ 1 -/
+theorem bpCwd_abs (a : List Bytes) (ha : a ≠ []) (hn : ∀ x ∈ a, x ≠ [] ∧ ∀ y ∈ x, y ≠ SL) (v : View) :
+    isAbs .linux (bpCwd (pathOf a) v) = true :=
+  bpCwd_abs_gen _ (pathOf_getLast a ha hn) v
+
+/-- REPAIRED (was the corner `bpCwd_prefix_cex`, a breach of the confinement): the pre-repair Getwd tested
+    `strings.HasPrefix(dir, vfs.basePath)` on STRINGS; with base "/tmp" and the base's current directory "/tmpfoo"
+    (outside the base; reachable by a Chdir on the base file system itself) it answered the RELATIVE path "foo", and the
+    relative path "x" was handed to the base as "/tmpfoo/x", outside the base directory. With `inBase` the virtual
+    current directory is "/" and "x" is handed to the base as "/tmp/x": inside. -/
+theorem bpCwd_prefix_repaired :
     bpCwd [SL, 116, 109, 112] { root := 0, cwd := [SL, 116, 109, 112, 102, 111, 111], uid := 0, gid := 0, admin := true, umask := 0 }
-      = [102, 111, 111] ∧
+      = [SL] ∧
     bpPath [SL, 116, 109, 112] { root := 0, cwd := [SL, 116, 109, 112, 102, 111, 111], uid := 0, gid := 0, admin := true, umask := 0 } [120]
-      = [SL, 116, 109, 112, 102, 111, 111, SL, 120] ∧
-    ¬ Within [SL, 116, 109, 112] [SL, 116, 109, 112, 102, 111, 111, SL, 120] := by
+      = [SL, 116, 109, 112, SL, 120] ∧
+    Within [SL, 116, 109, 112] [SL, 116, 109, 112, SL, 120] := by
   have h1 : bpCwd [SL, 116, 109, 112] { root := 0, cwd := [SL, 116, 109, 112, 102, 111, 111], uid := 0, gid := 0, admin := true, umask := 0 }
-      = [102, 111, 111] := by
-    simp only [bpCwd, Wrap.getwd, fromBasePath, join_eq_spec]
-    decide
+      = [SL] := bpCwd_outside _ _ (by decide)
   refine ⟨h1, ?_, ?_⟩
   · simp only [bpPath, h1, toBasePath, join_eq_spec, clean_eq_spec]
     decide
-  · rintro (h | ⟨rest, h, _⟩)
-    · exact absurd h (by decide)
-    · simp at h
-      exact absurd h.1 (by decide)
+  · exact Or.inr ⟨[120], rfl, by decide, by decide⟩
 
 theorem specJoin_empty_or_clean (es : List Bytes) : Spec.join es = [] ∨ Spec.clean (Spec.join es) = Spec.join es := by
   unfold Spec.join
@@ -327,9 +373,9 @@ theorem vpath_empty (base : Bytes) (v : View) (hw : isAbs .linux (bpCwd base v) 
     file system (the MemFS the wrapper was created over: its user, umask and current directory); the base path is
     "/a1/…/an" (n ≥ 1, ordinary names: `NewWithErr` stores `Abs(basePath)`, a cleaned absolute path), which the base
     resolves WITHOUT meeting a symbolic link, searching every directory on the way, to the directory node `c`
-    (`NewWithErr` checks that Stat succeeds and reports a directory); the virtual current directory is an absolute path
-    (`bpCwd_outside`, `bpCwd_base`, `bpCwd_below`: it is whenever the base's current directory is not below the base
-    path as a STRING, or is the base directory, or a clean path below it — `bpCwd_prefix_cex` is the corner excluded). -/
+    (`NewWithErr` checks that Stat succeeds and reports a directory);. NO hypothesis on the current directory of the base: the
+    virtual current directory is an absolute path whatever it is (`BpOK.cwdAbs` from `bpCwd_abs`, since the repair of
+    Getwd; before, this was a field of the structure and `bpCwd_prefix_repaired` was the corner it excluded). -/
 structure BpOK (s : Store) (root : Ino) (v : View) (a : List Bytes) (c : Ino) : Prop where
   wf : WF s root
   names : NamesOK s
@@ -339,7 +385,6 @@ structure BpOK (s : Store) (root : Ino) (v : View) (a : List Bytes) (c : Ino) : 
   anames : Names a
   reach : ∃ par, walkPath s v root a = .found par c
   isDir : ∃ mt ch, s.get c = some (.dir mt ch)
-  cwdAbs : isAbs .linux (bpCwd (pathOf a) v) = true
 
 /-- the virtual current directory of the wrapper with base path "/a1/…/an" -/
 abbrev bpW (a : List Bytes) (v : View) : Bytes := bpCwd (pathOf a) v
@@ -349,6 +394,10 @@ abbrev bpB (a : List Bytes) (v : View) (p : Bytes) : List Bytes := vcomps (bpW a
 
 section
 variable {s : Store} {root : Ino} {v : View} {a : List Bytes} {c : Ino}
+
+/-- the virtual current directory is an absolute path: no longer a hypothesis (`bpCwd_abs`, after the repair of Getwd) -/
+theorem BpOK.cwdAbs (h : BpOK s root v a c) : isAbs .linux (bpCwd (pathOf a) v) = true :=
+  bpCwd_abs a h.ane h.anames.1 v
 
 theorem BpOK.path (h : BpOK s root v a c) (p : Bytes) : bpPath (pathOf a) v p = pathOf (a ++ bpB a v p) :=
   toBasePath_pathOf a h.ane _ p h.cwdAbs
@@ -1022,8 +1071,7 @@ end
   BasePathFS keeps no current directory: Chdir(p) is Chdir(ToBasePath(p)) of the base, Getwd is the base's Getwd
   translated back. `bp_sim_chdir`: Chdir through the wrapper has the outcome of Chdir on the file system rooted at the
   base directory, and afterwards the base view corresponds AGAIN to that file system with its new current directory
-  (`bpView a v' c` = the new chroot view) and the setting `BpOK` holds again — the hypothesis on the virtual current
-  directory is an invariant of the calls made through the wrapper. -/
+  (`bpView a v' c` = the new chroot view) and the setting `BpOK` holds again. -/
 
 def bpChdir (base : Bytes) (s : Store) (v : View) (p : Bytes) : View × Out := chdir s v (bpPath base v p)
 
@@ -1094,11 +1142,9 @@ variable {s : Store} {root : Ino} {v : View} {a : List Bytes} {c : Ino}
 theorem BpOK.chdir (h : BpOK s root v a c) (b : List Bytes) (hb : Names b) :
     BpOK s root { v with cwd := pathOf (a ++ b) } a c ∧ bpW a { v with cwd := pathOf (a ++ b) } = pathOf b := by
   have hw : bpW a { v with cwd := pathOf (a ++ b) } = pathOf b := bpCwd_below a b h.ane hb _ rfl
-  refine ⟨⟨h.wf, h.names, ⟨h.view.rootDir, rfl⟩, h.vroot, h.ane, h.anames, ?_, h.isDir, ?_⟩, hw⟩
-  · obtain ⟨par, ha⟩ := h.reach
-    exact ⟨par, by rw [walkPath_cwd]; exact ha⟩
-  · rw [show bpCwd (pathOf a) { v with cwd := pathOf (a ++ b) } = bpW a { v with cwd := pathOf (a ++ b) } from rfl, hw]
-    rfl
+  refine ⟨⟨h.wf, h.names, ⟨h.view.rootDir, rfl⟩, h.vroot, h.ane, h.anames, ?_, h.isDir⟩, hw⟩
+  obtain ⟨par, ha⟩ := h.reach
+  exact ⟨par, by rw [walkPath_cwd]; exact ha⟩
 
 /-- Chdir: same outcome as on the file system rooted at the base directory; the new base view corresponds to the new
     view of that file system (its virtual current directory is the new current directory there), and the setting
